@@ -20,7 +20,7 @@ Conventions
   instantiates it with `Dec.roundTo p`).
 * `Cfg` records which of the defects found by C09 (known_findings/C09.json) are repaired in the
   code being modelled; `codeCfg` is the tree as it is now.  After the lead applies
-  proposed_fixes/F3.diff, F4.diff, F5.diff, F50.diff flip the corresponding flag in `codeCfg`.
+  proposed_fixes/F3_c09.diff, F4_c09.diff, F5_c09.diff flip the corresponding flag in `codeCfg`.
 -/
 import RegionsVerif.Impl.Decimal
 
@@ -32,16 +32,14 @@ open RegionsVerif.Impl.Dec
 structure Cfg where
   /-- F3 repaired: compound regions / frames without a DS9 name are skipped (else: exception). -/
   skip : Bool
-  /-- F4 repaired: `include` is written as `int(include)` and never hoisted into `global`. -/
+  /-- F4 repaired: `include` is written as `int(include)` (else: `include=False` / `include=True`). -/
   includeInt : Bool
   /-- F5 repaired: the `global` line keeps the first region's key order (else: `set` order). -/
   orderedGlobal : Bool
-  /-- F50 repaired: the reader leaves the value of `text=` alone (else: `float(text)` if it parses). -/
-  textVerbatim : Bool
 deriving DecidableEq, Repr
 
-def Cfg.current : Cfg := ⟨false, false, false, false⟩
-def Cfg.repaired : Cfg := ⟨true, true, true, true⟩
+def Cfg.current : Cfg := ⟨false, false, false⟩
+def Cfg.repaired : Cfg := ⟨true, true, true⟩
 
 /-- the code in /repo as of this check. -/
 def codeCfg : Cfg := Cfg.current
@@ -488,10 +486,8 @@ def reorder (ord : List Key) (g : Dict) : Dict :=
   ord.filterMap (fun k => (AL.get g k).map (fun v => (k, v))) ++
     g.filter (fun kv => decide (kv.1 ∉ ord))
 
-/-- what may go to the `global` line: everything but `tag` (and `include`, F4 repair). -/
-def hoistable (cfg : Cfg) (m : Dict) : Dict :=
-  let m := AL.pop m .tag
-  if cfg.includeInt then AL.pop m .include else m
+/-- what may go to the `global` line: everything but `tag`. -/
+def hoistable (m : Dict) : Dict := AL.pop m .tag
 
 def hoist (cfg : Cfg) (ord : List Key) : List Dict → Dict
   | [] => []
@@ -524,7 +520,7 @@ def serialize (cfg : Cfg) (ord : List Key) (p : Nat) (rs : List Region) : Except
     | .error e => .error e
     | .ok [] => .ok none
     | .ok ds =>
-      let g := hoist cfg ord (ds.map fun d => hoistable cfg d.mta)
+      let g := hoist cfg ord (ds.map fun d => hoistable d.mta)
       .ok (some ⟨p, g, commonFrame ds, ds.map (dropGlobal g)⟩)
 
 /-- number of regions skipped with a warning. -/
@@ -545,7 +541,8 @@ abbrev RDict := List (Key × RVal)
 inductive RLine
   | global (mta : RDict)
   | frame (f : FName)
-  | shape (neg : Bool) (shape : DShape) (params : List ℚ) (mta : RDict)
+  | noframe                      -- a frame DS9 knows and regions does not: following shapes are skipped
+  | shape (sign : Option Bool) (shape : DShape) (params : List ℚ) (mta : RDict)   -- sign: some true = '-'
 deriving DecidableEq, Repr
 
 abbrev ROut := List RLine
@@ -554,9 +551,17 @@ def lstripC (c : Char) (s : Str) : Str := s.dropWhile (· == c)
 def rstripC (c : Char) (s : Str) : Str := (s.reverse.dropWhile (· == c)).reverse
 def stripC (c : Char) (s : Str) : Str := rstripC c (lstripC c s)
 
-/-- `val.strip().strip("'").strip('"').lstrip('{').rstrip('}')` (`read.py:_parse_metadata`). -/
+/-- `val = val.strip()`, then the one enclosing pair of text delimiters `{}`, `''`, `""` is removed
+(`read.py:_parse_metadata`). -/
 def stripVal (s : Str) : Str :=
-  rstripC '}' (lstripC '{' (stripC '"' (stripC '\'' (strip s))))
+  let v := strip s
+  match v with
+  | a :: rest =>
+    (match rest.reverse with
+     | b :: inner =>
+       if (a = '{' ∧ b = '}') ∨ (a = '\'' ∧ b = '\'') ∨ (a = '"' ∧ b = '"') then inner.reverse else v
+     | [] => v)
+  | [] => v
 
 /-- the `tag` entry as the writer spells it: one `tag={…}` per element (a `str` is iterated
 character by character, as Python does). -/
@@ -583,7 +588,7 @@ def toRaw (sky : ℚ → ℚ) (o : WOut) : ROut :=
     (match o.gframe with
      | some _ => []
      | none => [RLine.frame l.frame]) ++
-    [RLine.shape false l.shape
+    [RLine.shape none l.shape
       (l.params.map fun w => if w.astro then sky w.val else roundTo o.prec w.val)
       (rawDict l.mta)]
 
@@ -598,10 +603,10 @@ def binaryKeys : List Key :=
    .background, .fill, .vector, .textrotate]
 
 /-- `float(value)`, then `int(value)` when integral; a list (tag) passes through. -/
-def convertVal (cfg : Cfg) (k : Key) : RVal → PyVal
+def convertVal (k : Key) : RVal → PyVal
   | .tags l => .strs l
   | .str s =>
-    if cfg.textVerbatim ∧ k = .text then .str s
+    if k = .text then .str s        -- text is kept verbatim (e.g. text={007})
     else match pyFloat s with
       | some (.fin q) => if q.den = 1 then .int q.num else .flt q (pyReprQ q)
       | some .inf => .special "inf".toList
@@ -636,21 +641,28 @@ def invalidItem (k : Key) (v : PyVal) : Except String Bool := do
   let inv3 := decide (k ∈ binaryKeys) && !isZeroOne v
   pure (inv1 || inv2 || inv3)
 
-def defineRawAux (cfg : Cfg) : RDict → Except String Dict
+def defineRawAux : RDict → Except String Dict
   | [] => .ok []
   | (k, rv) :: rest =>
-    let v := convertVal cfg k rv
+    let v := convertVal k rv
     match invalidItem k v with
     | .error e => .error e
     | .ok inv =>
-      match defineRawAux cfg rest with
+      match defineRawAux rest with
       | .error e => .error e
       | .ok d => .ok (if inv then d else (k, v) :: d)
 
+/-- the `include_meta` of a region line: `-` ⇒ 0; `+`, or no sign and no `include` in the global
+metadata ⇒ 1; no sign and a global `include` ⇒ nothing (the global value applies). -/
+def includeMeta (g : RDict) (sign : Option Bool) : RDict :=
+  match sign with
+  | some true => [(Key.include, RVal.str ['0'])]
+  | some false => [(Key.include, RVal.str ['1'])]
+  | none => if (AL.get g .include).isSome then [] else [(Key.include, RVal.str ['1'])]
+
 /-- `_define_raw_metadata(global_meta, composite_meta='', include_meta, region_meta)`. -/
-def defineRaw (cfg : Cfg) (g : RDict) (neg : Bool) (loc : RDict) : Except String Dict :=
-  defineRawAux cfg
-    (AL.update (AL.update g [(Key.include, RVal.str (if neg then ['0'] else ['1']))]) loc)
+def defineRaw (g : RDict) (sign : Option Bool) (loc : RDict) : Except String Dict :=
+  defineRawAux (AL.update (AL.update g (includeMeta g sign)) loc)
 
 /-! ### reader: split and translate (`meta.py:_split_raw_metadata`, `_translate_ds9_to_visual`) -/
 
@@ -878,23 +890,45 @@ def textIsStr : Option PyVal → Bool
   | some (.str _) => true
   | some _ => false
 
-/-- `_make_region` for one (single-region) line. -/
+/-- the reader's final shape word, known from the shape word and the number of parameters
+(`_parse_shape_params`) before any region object is built. -/
+def finalShape : DShape → List ℚ → Option RShape
+  | .circle, [_, _, _] => some .circle
+  | .ellipse, [_, _, _, _, _] => some .ellipse
+  | .box, [_, _, _, _, _] => some .box
+  | .annulus, [_, _, _, _] => some .annulus
+  | .ellipse, [_, _, _, _, _, _, _] => some .ellipse_annulus
+  | .box, [_, _, _, _, _, _, _] => some .rectangle_annulus
+  | .polygon, _ => some .polygon
+  | .line, [_, _, _, _] => some .line
+  | .point, [_, _] => some .point
+  | .text, [_, _] => some .text
+  | _, _ => none
+
+/-- `_make_region` for one (single-region) line: shape parameters, then the visual translation,
+then the region constructor (size validation, `TextString`), then `RegionMeta`. -/
 def makeRegion (fn : FName) (shape : DShape) (ps : List ℚ) (raw : Dict) : Except String Region :=
-  match geometry (decide (fn = .image)) shape ps with
-  | .error e => .error e
-  | .ok (rs, cls, coords, nums) =>
+  match finalShape shape ps with
+  | none =>
+    (match geometry (decide (fn = .image)) shape ps with
+     | .error e => .error e
+     | .ok _ => .error "OutOfModel")
+  | some rs =>
     match ds9ToVisual rs (splitRaw raw).2 with
     | .error e => .error e
     | .ok vis =>
-      -- text regions: the string is raw_meta.get('text', ''), and leaves the meta
-      let text : Option PyVal :=
-        if rs = .text then some ((AL.get raw .text).getD (.str [])) else none
-      let mta := if rs = .text then AL.pop (splitRaw raw).1 .text else (splitRaw raw).1
-      -- Text…Region(center, text): `text` must be a `str` (`TextString` descriptor)
-      if textIsStr text = false then .error "ValueError"
-      -- RegionMeta(meta): unknown keys raise KeyError
-      else if mta.any (fun kv => decide (kv.1 ∉ regionMetaKeys)) then .error "KeyError"
-      else .ok ⟨cls, fn.frame, coords, nums, text, mta, toRegionVisual vis⟩
+      match geometry (decide (fn = .image)) shape ps with
+      | .error e => .error e
+      | .ok (_, cls, coords, nums) =>
+        -- text regions: the string is raw_meta.get('text', ''), and leaves the meta
+        let text : Option PyVal :=
+          if rs = .text then some ((AL.get raw .text).getD (.str [])) else none
+        let mta := if rs = .text then AL.pop (splitRaw raw).1 .text else (splitRaw raw).1
+        -- Text…Region(center, text): `text` must be a `str` (`TextString` descriptor)
+        if textIsStr text = false then .error "ValueError"
+        -- RegionMeta(meta): unknown keys raise KeyError
+        else if mta.any (fun kv => decide (kv.1 ∉ regionMetaKeys)) then .error "KeyError"
+        else .ok ⟨cls, fn.frame, coords, nums, text, mta, toRegionVisual vis⟩
 
 /-! ### reader: lines (`read.py:_parse_raw_data`, `_parse_ds9`) -/
 
@@ -907,16 +941,17 @@ deriving DecidableEq, Repr
 
 /-- `_parse_raw_data`: frame persistence, successive `global` lines, a shape before any frame
 is skipped with a warning. -/
-def rawData (cfg : Cfg) : RDict → Option FName → ROut → Except String (List RegionData)
+def rawData : RDict → Option FName → ROut → Except String (List RegionData)
   | _, _, [] => .ok []
-  | g, f, .global m :: ls => rawData cfg (AL.update g m) f ls
-  | g, _, .frame fr :: ls => rawData cfg g (some fr) ls
-  | g, none, .shape _ _ _ _ :: ls => rawData cfg g none ls
-  | g, some fr, .shape neg sh ps m :: ls =>
-    match defineRaw cfg g neg m with
+  | g, f, .global m :: ls => rawData (AL.update g m) f ls
+  | g, _, .frame fr :: ls => rawData g (some fr) ls
+  | g, _, .noframe :: ls => rawData g none ls
+  | g, none, .shape _ _ _ _ :: ls => rawData g none ls
+  | g, some fr, .shape sign sh ps m :: ls =>
+    match defineRaw g sign m with
     | .error e => .error e
     | .ok raw =>
-      match rawData cfg g (some fr) ls with
+      match rawData g (some fr) ls with
       | .error e => .error e
       | .ok ds => .ok (⟨fr, sh, ps, raw⟩ :: ds)
 
@@ -931,8 +966,8 @@ def makeAll : List RegionData → Except String (List Region)
       | .ok rs => .ok (r :: rs)
 
 /-- `_parse_ds9` -/
-def parse (cfg : Cfg) (o : ROut) : Except String (List Region) :=
-  match rawData cfg [] none o with
+def parse (o : ROut) : Except String (List Region) :=
+  match rawData [] none o with
   | .error e => .error e
   | .ok ds => makeAll ds
 
@@ -942,6 +977,6 @@ def roundTrip (cfg : Cfg) (ord : List Key) (sky : ℚ → ℚ) (p : Nat) (rs : L
   match serialize cfg ord p rs with
   | .error e => .error e
   | .ok none => .ok []
-  | .ok (some o) => parse cfg (toRaw sky o)
+  | .ok (some o) => parse (toRaw sky o)
 
 end RegionsVerif.Impl.Ds9
